@@ -101,7 +101,9 @@ def parse_tce(msg):
     m = _blame.search(msg)
     if m:
         out["blamed"] = m.group(1)
-    i = msg.find("The current values for each jaxtyping axis annotation are as follows.")
+    cands = [j for j in (msg.find("The current values for each jaxtyping axis annotation are as follows."),
+                         msg.find("The current values for each jaxtyping PyTree structure annotation are as")) if j >= 0]
+    i = min(cands) if cands else -1
     if i >= 0:
         b = R.parse_bindings(msg[i:])
         out["printed"] = {"single": b["single"], "variadic": {k: v["s"] for k, v in b["variadic"].items()}}
